@@ -1,7 +1,8 @@
 //! C04 — blinding yields a transaction that verifies and that receivers can unblind.
 use elements::confidential::{Asset, AssetBlindingFactor, Nonce, Value, ValueBlindingFactor};
 use elements::secp256k1_zkp::{PublicKey, SecretKey};
-use elements::{Address, AddressParams, CtLocation, CtLocationType, Transaction, TxOut, TxOutSecrets};
+use elements::secp256k1_zkp::Generator;
+use elements::{Address, AddressParams, CtLocation, CtLocationType, SurjectionInput, Transaction, TxOut, TxOutSecrets};
 use rand::SeedableRng;
 use rand_chacha::ChaCha20Rng;
 use serde_json::json;
@@ -9,6 +10,7 @@ use std::collections::BTreeMap;
 
 use crate::engine::*;
 use crate::gen::ct::{self, CtCase};
+use crate::gen::ext_g3::{self as ext, CtExt, CtOpts};
 use crate::gen::{pool, secp};
 use crate::refimpl::enc;
 use crate::{ensure, ensure_eq};
@@ -17,16 +19,23 @@ pub type BlindMap = BTreeMap<CtLocation, (AssetBlindingFactor, ValueBlindingFact
 
 /// blind a generated case; returns the blinded transaction and the reported factors
 pub fn blind_case(case: &CtCase) -> Result<(Transaction, BlindMap), Failure> {
+    blind_case_with(case, false)
+}
+
+/// `blind_issuances` may only be true for a case without issuances (where it has nothing to act on)
+pub fn blind_case_with(case: &CtCase, blind_issuances: bool) -> Result<(Transaction, BlindMap), Failure> {
     let mut tx = case.tx.clone();
     let mut rng = ChaCha20Rng::from_seed(case.rng_seed);
-    let r = guard::guard("Transaction::blind", 0, || tx.blind(&mut rng, secp(), &case.secrets, false))?;
+    let r = guard::guard("Transaction::blind", 0, || tx.blind(&mut rng, secp(), &case.secrets, blind_issuances))?;
     match r {
         Ok(m) => Ok((tx, m)),
         Err(e) => Err(Failure::new(format!(
-            "Transaction::blind failed on a balanced explicit transaction with true input secrets: {} ({:?})\n marked outputs={:?} of {}\n inputs={} assets={} issuance={}",
+            "Transaction::blind(blind_issuances={}) failed on a balanced explicit transaction with true input secrets: {} ({:?})\n marked outputs={:?}, unmarked outputs with an explicit nonce={:?}, of {}\n inputs={} assets={} issuance={}",
+            blind_issuances,
             e,
             e,
             case.receivers.keys().collect::<Vec<_>>(),
+            (0..case.tx.output.len()).filter(|i| case.tx.output[*i].nonce.is_explicit()).collect::<Vec<_>>(),
             case.tx.output.len(),
             case.tx.input.len(),
             case.n_assets,
@@ -41,7 +50,9 @@ pub fn describe(case: &CtCase) -> serde_json::Value {
         "issuances": case.tx.input.iter().filter(|i| i.has_issuance()).count(),
         "assets": case.n_assets,
         "outputs": case.tx.output.iter().enumerate().map(|(i, o)| json!({
-            "value": o.value.explicit(), "kind": if o.is_fee() { "fee" } else if case.receivers.contains_key(&i) { "to-blind" } else { "plain" }})).collect::<Vec<_>>(),
+            "value": o.value.explicit(),
+            "kind": if o.is_fee() { "fee" } else if case.receivers.contains_key(&i) { "to-blind" } else if o.nonce.is_explicit() { "plain+explicit-nonce" } else { "plain" },
+            "script": format!("{} bytes, first {:02x?}", o.script_pubkey.len(), o.script_pubkey.as_bytes().first())})).collect::<Vec<_>>(),
     })
 }
 
@@ -51,12 +62,48 @@ pub fn check_blinded(case: &CtCase, tx: &Transaction, map: &BlindMap, ctx: &mut 
     let want: Vec<usize> = case.receivers.keys().copied().collect();
     ensure!(map.keys().all(|l| l.ty == CtLocationType::Input), "blind() reported issuance locations although issuances were not blinded");
     ensure_eq!(keys, want, "positions reported by blind() differ from the outputs marked for blinding");
+    // For half of the cases (a tape bit) the verifier first sees two relatives that it has to reject:
+    // the same transaction without one range proof (same txid) and the same transaction against an
+    // altered spent-output list (same wtxid). The result must pass whatever was verified before.
+    let after_rejected = case.rng_seed[1] & 1 == 1;
+    if after_rejected {
+        if let Some(i) = want.first() {
+            let mut bad = tx.clone();
+            bad.output[*i].witness.rangeproof = None;
+            let _ = guard::guard("verify_tx_amt_proofs", 0, || bad.verify_tx_amt_proofs(secp(), &case.spent))?;
+        }
+        let mut s2 = case.spent.clone();
+        if let Some(first) = s2.first_mut() {
+            first.value = match first.value {
+                Value::Explicit(v) => Value::Explicit(if v == u64::MAX { v - 1 } else { v + 1 }),
+                _ => Value::Confidential(pool().commitments[0]),
+            };
+        }
+        let _ = guard::guard("verify_tx_amt_proofs", 0, || tx.verify_tx_amt_proofs(secp(), &s2))?;
+        ctx.class("verified-after-two-rejected-relatives");
+    }
     // verification against the spent outputs
     let v = guard::guard("verify_tx_amt_proofs", 0, || tx.verify_tx_amt_proofs(secp(), &case.spent))?;
     ctx.eval();
     if let Err(e) = v {
-        return Err(Failure::new(format!("blinded transaction does not pass amount verification: {} ({:?})\n case={}", e, e, describe(case))));
+        return Err(Failure::new(format!(
+            "blinded transaction does not pass amount verification{}: {} ({:?})\n case={}",
+            if after_rejected { " (verified after the same transaction had been rejected without a range proof and against an altered spent-output list)" } else { "" },
+            e,
+            e,
+            describe(case)
+        )));
     }
+    // ... and by the rule itself (Elements VerifyAmounts on the zkp primitives, harness-side issuance ids
+    // and domain order), so that a blinder and a verifier that agree on a wrong rule do not pass
+    if let Err(e) = ext::ref_verify(tx, &case.spent) {
+        return Err(Failure::new(format!(
+            "blinded transaction is accepted by verify_tx_amt_proofs but does not pass confidential amount verification as Elements defines it (independent verifier): {}\n case={}",
+            e,
+            describe(case)
+        )));
+    }
+    ctx.eval();
     ensure_eq!(tx.output.len(), case.tx.output.len(), "blind() changed the number of outputs");
     ensure!(tx.input == case.tx.input && tx.version == case.tx.version && tx.lock_time == case.tx.lock_time, "blind() changed inputs / version / lock time");
     for (i, out) in tx.output.iter().enumerate() {
@@ -72,7 +119,7 @@ pub fn check_blinded(case: &CtCase, tx: &Transaction, map: &BlindMap, ctx: &mut 
                     _ => return Err(Failure::new("generator error: non-explicit output".to_string())),
                 };
                 ensure!(out.asset.is_confidential() && out.value.is_confidential(), "marked output {} is not confidential after blinding", i);
-                ensure!(out.script_pubkey == orig.script_pubkey, "blinding changed the script of output {}", i);
+                ensure!(out.script_pubkey == orig.script_pubkey, "blinding changed the script of output {} from {:x} to {:x}", i, orig.script_pubkey, out.script_pubkey);
                 ensure!(out.witness.rangeproof.is_some() && out.witness.surjection_proof.is_some(), "blinded output {} lacks a proof", i);
                 // unblind with the receiver key
                 let un = guard::guard("TxOut::unblind", 0, || out.unblind(secp(), *sk))?;
@@ -105,16 +152,58 @@ pub fn check_blinded(case: &CtCase, tx: &Transaction, map: &BlindMap, ctx: &mut 
             }
         }
     }
+    // and passes again, after all the calls above
+    let v = guard::guard("verify_tx_amt_proofs", 0, || tx.verify_tx_amt_proofs(secp(), &case.spent))?;
+    ctx.eval();
+    if let Err(e) = v {
+        return Err(Failure::new(format!("blinded transaction passes amount verification once and fails when verified again: {} ({:?})\n case={}", e, e, describe(case))));
+    }
     Ok(())
 }
 
+/// C01 (consensus round trip) on a value produced by the blinding functions. A mismatch is C01's
+/// to report, not a violation of C04: it is counted in the histogram only.
+fn c01_probe<T: elements::encode::Encodable + elements::encode::Decodable + PartialEq + std::fmt::Debug>(name: &str, v: &T, want: Option<&[u8]>, ctx: &mut Ctx) {
+    if let Err(f) = super::c01::roundtrip_value(name, v, want, &[], ctx) {
+        ctx.class("c01-mismatch-on-blinded-value(not a C04 failure)");
+        let mut m = f.msg;
+        m.truncate(300);
+        ctx.sample("c01-mismatch-on-blinded-value", || json!({ "type": name, "message": m }));
+    }
+}
+
+const EXT_OPTS: CtOpts = CtOpts { allow_unmarked: false, ext_scripts: true, explicit_nonces: true, burn_outputs: true, huge: true };
+
+fn shape_classes(x: &CtExt, ctx: &mut Ctx) {
+    if x.huge {
+        ctx.class("huge-amount(2^63-1..2^64-1)");
+        if x.case.tx.output.iter().enumerate().any(|(i, o)| x.case.receivers.contains_key(&i) && o.value.explicit().map_or(false, |v| v == (1 << 63) - 1)) {
+            ctx.class("huge-amount:marked-output==2^63-1");
+        }
+    }
+    if !x.burn.is_empty() {
+        ctx.class("positive-amount-on-burn-script(unmarked)");
+    }
+    if !x.explicit_nonce.is_empty() {
+        ctx.class("explicit-nonce-on-unmarked-output");
+    }
+    if !x.ext_marked.is_empty() {
+        ctx.class("marked-output:p2wsh-or-v1plus-script");
+    }
+    if x.ext_script_on_non_last_marked() {
+        ctx.class("marked-output:p2wsh-or-v1plus-script-on-non-last");
+    }
+}
+
 fn blind_and_check(t: &mut Tape, ctx: &mut Ctx) -> R {
-    let case = ct::gen_ct_case(t, false);
-    let (tx, map) = blind_case(&case)?;
-    check_blinded(&case, &tx, &map, ctx)?;
-    // C01 on values produced by the blinding functions: encodes / decodes back, reference bytes
+    let x = ext::gen_ct_case_ext(t, EXT_OPTS);
+    let case = &x.case;
+    // without issuances the flag has nothing to act on and must not change anything
+    let blind_issuances = !case.has_issuance && t.bool();
+    let (tx, map) = blind_case_with(case, blind_issuances)?;
+    check_blinded(case, &tx, &map, ctx)?;
     let want = enc::tx_full(&tx);
-    super::c01::roundtrip_value("Transaction", &tx, Some(&want), &[], ctx)?;
+    c01_probe("Transaction", &tx, Some(&want), ctx);
     let marked: Vec<usize> = case.receivers.keys().copied().collect();
     let last_marked_not_last = marked.last().map_or(false, |m| *m + 1 != case.tx.output.len());
     ctx.class(&format!("marked:{}", marked.len().min(4)));
@@ -131,12 +220,44 @@ fn blind_and_check(t: &mut Tape, ctx: &mut Ctx) -> R {
     if last_marked_not_last {
         ctx.class("last-marked-is-not-last-output");
     }
-    if marked.len() >= 2 || case.n_assets >= 2 || case.has_issuance || case.has_conf_input || last_marked_not_last {
+    if blind_issuances {
+        ctx.class("blind_issuances=true-without-issuance");
+    }
+    shape_classes(&x, ctx);
+    if marked.len() >= 2 || case.n_assets >= 2 || case.has_issuance || case.has_conf_input || last_marked_not_last || x.huge || !x.ext_marked.is_empty() {
         ctx.nontrivial(&enc::tx_full(&case.tx));
     }
-    let cls = format!("case:marked{}{}{}", marked.len().min(3), if case.has_issuance { "+issuance" } else { "" }, if case.has_partial_input { "+partial-in" } else if case.has_conf_input { "+conf-in" } else { "" });
+    let cls = format!(
+        "case:marked{}{}{}{}",
+        marked.len().min(3),
+        if case.has_issuance { "+issuance" } else { "" },
+        if case.has_partial_input { "+partial-in" } else if case.has_conf_input { "+conf-in" } else { "" },
+        if x.huge { "+huge" } else { "" }
+    );
     if ctx.wants_sample(&cls) {
-        ctx.sample(&cls, || describe(&case));
+        ctx.sample(&cls, || describe(case));
+    }
+    Ok(())
+}
+
+/// generators of the surjection domain, from the harness's knowledge of the input secrets
+fn domain_of(secrets: &[TxOutSecrets]) -> Vec<Generator> {
+    secrets
+        .iter()
+        .map(|x| if x.asset_bf == AssetBlindingFactor::zero() { Generator::new_unblinded(secp(), x.asset.into_tag()) } else { Generator::new_blinded(secp(), x.asset.into_tag(), x.asset_bf.into_inner()) })
+        .collect()
+}
+
+/// both proofs of a constructed output, checked on the zkp primitives
+fn proofs_valid(out: &TxOut, secrets: &[TxOutSecrets], what: &str) -> R {
+    let (Asset::Confidential(g), Value::Confidential(c)) = (out.asset, out.value) else {
+        return Err(Failure::new(format!("{}: the output is not fully confidential", what)));
+    };
+    let sp = out.witness.surjection_proof.as_ref().ok_or_else(|| Failure::new(format!("{}: no surjection proof", what)))?;
+    ensure!(sp.verify(secp(), g, &domain_of(secrets)), "{}: the surjection proof does not verify against the generators of the spent outputs", what);
+    let rp = out.witness.rangeproof.as_ref().ok_or_else(|| Failure::new(format!("{}: no range proof", what)))?;
+    if let Err(e) = rp.verify(secp(), c, out.script_pubkey.as_bytes(), g) {
+        return Err(Failure::new(format!("{}: the range proof does not verify for (commitment, script, asset generator): {}", what, e)));
     }
     Ok(())
 }
@@ -152,12 +273,13 @@ fn building_blocks(t: &mut Tape, ctx: &mut Ctx) -> R {
     // an output of an asset that some input carries
     let sec = case.secrets[t.below(case.secrets.len())];
     let value = ct::gen_amount(t);
-    let spk = ct::std_script(t);
+    let (spk, ext_script) = ext::std_script_ext(t);
     let addr = match Address::from_script(&spk, Some(receiver_pk), &AddressParams::ELEMENTS) {
         Some(a) => a,
-        None => return Err(Failure::new("Address::from_script failed on a standard script".to_string())),
+        None => return Err(Failure::new(format!("Address::from_script failed on the witness / p2pkh / p2sh script {:x}", spk))),
     };
-    let which = t.below(3);
+    let which = t.below(4);
+    let name = ["new_not_last_confidential", "with_txout_secrets", "new_last_confidential", "to_non_last_confidential"][which];
     let (out, abf, vbf): (TxOut, AssetBlindingFactor, ValueBlindingFactor) = match which {
         0 => {
             let r = guard::guard("new_not_last_confidential", 0, || TxOut::new_not_last_confidential(&mut rng, secp(), value, &addr, sec.asset, &case.secrets))?;
@@ -180,7 +302,7 @@ fn building_blocks(t: &mut Tape, ctx: &mut Ctx) -> R {
                 Err(e) => return Err(Failure::new(format!("with_txout_secrets failed: {}", e))),
             }
         }
-        _ => {
+        2 => {
             let outs: Vec<TxOutSecrets> = Vec::new();
             let refs: Vec<&TxOutSecrets> = outs.iter().collect();
             let r = guard::guard("new_last_confidential", 0, || {
@@ -191,42 +313,157 @@ fn building_blocks(t: &mut Tape, ctx: &mut Ctx) -> R {
                 Err(e) => return Err(Failure::new(format!("new_last_confidential failed: {}", e))),
             }
         }
+        _ => {
+            let plain = TxOut { asset: Asset::Explicit(sec.asset), value: Value::Explicit(value), nonce: Nonce::Null, script_pubkey: spk.clone(), witness: Default::default() };
+            let r = guard::guard("to_non_last_confidential", 0, || plain.to_non_last_confidential(&mut rng, secp(), receiver_pk, &case.secrets))?;
+            match r {
+                Ok((o, a, v, _)) => (o, a, v),
+                Err(e) => return Err(Failure::new(format!("to_non_last_confidential failed: {}", e))),
+            }
+        }
     };
     ctx.eval();
     let un = guard::guard("TxOut::unblind", 0, || out.unblind(secp(), receiver_sk))?;
     match un {
-        Ok(s) => ensure!(s == TxOutSecrets::new(sec.asset, abf, value, vbf), "constructor {} output unblinds to {:?}", which, s),
-        Err(e) => return Err(Failure::new(format!("constructor {} output cannot be unblinded: {}", which, e))),
+        Ok(s) => ensure!(s == TxOutSecrets::new(sec.asset, abf, value, vbf), "{} output unblinds to {:?}", name, s),
+        Err(e) => return Err(Failure::new(format!("{} output cannot be unblinded: {}", name, e))),
     }
     ensure!(Asset::new_confidential(secp(), sec.asset, abf) == out.asset, "asset commitment is not new_confidential(asset, abf)");
     ensure!(Value::new_confidential_from_assetid(secp(), value, sec.asset, vbf, abf) == out.value, "value commitment is not new_confidential_from_assetid(value, asset, vbf, abf)");
-    ensure!(out.script_pubkey == spk, "script changed");
-    super::c01::roundtrip_value("TxOut(blinded)", &TxOut { witness: Default::default(), ..out.clone() }, None, &[], ctx)?;
-    ctx.class(&format!("constructor:{}", ["new_not_last_confidential", "with_txout_secrets", "new_last_confidential"][which]));
+    ensure!(out.script_pubkey == spk, "{}: script changed from {:x} to {:x}", name, spk, out.script_pubkey);
+    proofs_valid(&out, &case.secrets, name)?;
+    c01_probe("TxOut(blinded)", &TxOut { witness: Default::default(), ..out.clone() }, None, ctx);
+    ctx.class(&format!("constructor:{}", name));
+    if ext_script {
+        ctx.class("constructor:p2wsh-or-v1plus-script");
+    }
     ctx.nontrivial(&(which, value, hex(&case.rng_seed)));
+    Ok(())
+}
+
+/// A transaction blinded by hand from the building blocks: every marked output but one through one
+/// of the non-last constructors (secrets passed as `TxOutSecrets` or as `SurjectionInput`s), one
+/// tape-chosen marked output through `new_last_confidential` / `with_secrets_last` with the secrets
+/// of all other outputs. The result must satisfy everything a `blind()` result must.
+fn assembled(t: &mut Tape, ctx: &mut Ctx) -> R {
+    let p = pool();
+    let x = ext::gen_ct_case_ext(t, CtOpts { huge: false, ..EXT_OPTS });
+    let case = &x.case;
+    let mut rng = ChaCha20Rng::from_seed(case.rng_seed);
+    let marked: Vec<usize> = case.receivers.keys().copied().collect();
+    let solved = marked[marked.len() - 1 - t.below(marked.len())];
+    let surj: Vec<SurjectionInput> = case.secrets.iter().map(|s| SurjectionInput::from_txout_secrets(*s)).collect();
+    let mut tx = case.tx.clone();
+    let mut map: BlindMap = BTreeMap::new();
+    let mut out_secrets: BTreeMap<usize, TxOutSecrets> = BTreeMap::new();
+    for (i, o) in case.tx.output.iter().enumerate() {
+        let (Some(asset), Some(value)) = (o.asset.explicit(), o.value.explicit()) else {
+            return Err(Failure::new("generator error: non-explicit output".to_string()));
+        };
+        if !case.receivers.contains_key(&i) {
+            out_secrets.insert(i, TxOutSecrets::new(asset, AssetBlindingFactor::zero(), value, ValueBlindingFactor::zero()));
+            continue;
+        }
+        if i == solved {
+            continue;
+        }
+        let Some(pk) = o.nonce.commitment() else {
+            return Err(Failure::new("generator error: marked output without key".to_string()));
+        };
+        let addr = match Address::from_script(&o.script_pubkey, Some(pk), &AddressParams::ELEMENTS) {
+            Some(a) => a,
+            None => return Err(Failure::new(format!("Address::from_script failed on the witness / p2pkh / p2sh script {:x}", o.script_pubkey))),
+        };
+        let how = t.below(4);
+        let r = match how {
+            0 => guard::guard("new_not_last_confidential", 0, || TxOut::new_not_last_confidential(&mut rng, secp(), value, &addr, asset, &case.secrets))?,
+            1 => guard::guard("new_not_last_confidential", 0, || TxOut::new_not_last_confidential(&mut rng, secp(), value, &addr, asset, &surj))?,
+            2 => guard::guard("to_non_last_confidential", 0, || o.to_non_last_confidential(&mut rng, secp(), pk, &case.secrets))?,
+            _ => guard::guard("to_non_last_confidential", 0, || o.to_non_last_confidential(&mut rng, secp(), pk, &surj))?,
+        };
+        ctx.class(["assembled:new_not_last<TxOutSecrets>", "assembled:new_not_last<SurjectionInput>", "assembled:to_non_last<TxOutSecrets>", "assembled:to_non_last<SurjectionInput>"][how]);
+        match r {
+            Ok((no, abf, vbf, eph)) => {
+                out_secrets.insert(i, TxOutSecrets::new(asset, abf, value, vbf));
+                map.insert(CtLocation { input_index: i, ty: CtLocationType::Input }, (abf, vbf, eph));
+                tx.output[i] = no;
+            }
+            Err(e) => return Err(Failure::new(format!("non-last constructor {} failed for output {}: {} ({:?})", how, i, e, e))),
+        }
+    }
+    {
+        let o = &case.tx.output[solved];
+        let (Some(asset), Some(value), Some(pk)) = (o.asset.explicit(), o.value.explicit(), o.nonce.commitment()) else {
+            return Err(Failure::new("generator error: marked output".to_string()));
+        };
+        let refs: Vec<&TxOutSecrets> = out_secrets.values().collect();
+        if t.bool() {
+            let abf = ct::abf_from(t, 7000);
+            let eph = p.seckeys[t.below(p.seckeys.len())];
+            let r = guard::guard("with_secrets_last", 0, || TxOut::with_secrets_last(&mut rng, secp(), value, o.script_pubkey.clone(), pk, asset, eph, abf, &case.secrets, &refs))?;
+            ctx.class("assembled:with_secrets_last");
+            match r {
+                Ok((no, vbf)) => {
+                    map.insert(CtLocation { input_index: solved, ty: CtLocationType::Input }, (abf, vbf, eph));
+                    tx.output[solved] = no;
+                }
+                Err(e) => return Err(Failure::new(format!("with_secrets_last failed for output {}: {} ({:?})", solved, e, e))),
+            }
+        } else {
+            let r = guard::guard("new_last_confidential", 0, || TxOut::new_last_confidential(&mut rng, secp(), value, asset, o.script_pubkey.clone(), pk, &case.secrets, &refs))?;
+            ctx.class("assembled:new_last_confidential");
+            match r {
+                Ok((no, abf, vbf, eph)) => {
+                    map.insert(CtLocation { input_index: solved, ty: CtLocationType::Input }, (abf, vbf, eph));
+                    tx.output[solved] = no;
+                }
+                Err(e) => return Err(Failure::new(format!("new_last_confidential failed for output {}: {} ({:?})", solved, e, e))),
+            }
+        }
+    }
+    ctx.eval();
+    check_blinded(case, &tx, &map, ctx)?;
+    if Some(&solved) != marked.last() {
+        ctx.class("assembled:solved-output-is-not-the-last-marked");
+    }
+    ctx.class(&format!("assembled:marked:{}", marked.len().min(4)));
+    shape_classes(&x, ctx);
+    ctx.nontrivial(&(enc::tx_full(&case.tx), solved));
     Ok(())
 }
 
 pub fn property() -> Property {
     Property {
         id: "C04",
-        rule: "blind: tape-generated balanced explicit transactions: 1..4 inputs over 1..3 assets, each spent output explicit \
-               or confidential (real commitments from tape-chosen blinding factors), optional explicit issuance (+token) / \
-               reissuance pseudo-inputs, per-asset totals split into 1..3 positive outputs (values 1..2^60 edge-biased), fee / \
-               plain / to-blind outputs in tape order, >=1 marked with a receiver key, blinder RNG = ChaCha20(tape seed). \
-               Oracle: blind() Ok; reported positions == marked positions; verify_tx_amt_proofs Ok; each marked output unblinds \
-               with the receiver key to (asset, value, reported abf, vbf); factors reproduce both commitments; nonce == \
-               pubkey(reported ephemeral key); unmarked outputs untouched; another key does not unblind; the result \
-               round-trips through consensus encoding (C01). building_blocks: the three TxOut constructors directly. \
-               Non-trivial: >=2 marked outputs, >=2 assets, an issuance, a confidential input, or last marked output not \
-               last; distinct by the explicit transaction's encoding.",
+        rule: "blind: tape-generated balanced explicit transactions: 1..4 inputs over 1..3 assets, each spent output explicit, \
+               confidential or partially blinded (real commitments from tape-chosen blinding factors), optional explicit \
+               issuance (+token, token only) / reissuance pseudo-inputs, per-asset totals split into 1..3 positive outputs \
+               (values 1..2^60 edge-biased; about one case in 11 has a single input of 2^63-1, 2^63, 2^63+1 or 2^64-1 with marked \
+               parts up to 2^63-1, the largest amount the range proof parameters admit), fee / plain / to-blind outputs in tape \
+               order, >=1 marked with a receiver key; scripts p2pkh / p2sh / v0 20+32 / v1 with 2..40-byte programs / v2..v16; \
+               unmarked outputs may carry an explicit 32-byte nonce or sit (with their positive amount) on an OP_RETURN / \
+               oversize script; blinder RNG = ChaCha20(tape seed); blind_issuances = tape bool when there is no issuance. \
+               Oracle: blind() Ok; reported positions == marked positions; verify_tx_amt_proofs Ok (for half of the cases after \
+               two rejected relatives - a range proof removed, a spent amount altered - and always once more at the end) AND the harness's own \
+               amount verifier (Elements VerifyAmounts on the zkp primitives with the harness's issuance ids) Ok; each marked \
+               output unblinds with the receiver key to (asset, value, reported abf, vbf); factors reproduce both \
+               commitments; nonce == pubkey(reported ephemeral key); script unchanged; unmarked outputs untouched; another key \
+               does not unblind. A consensus round-trip mismatch of the result is only counted (it is C01's). \
+               building_blocks: the four TxOut constructors directly (unblind, commitments, script, both proofs verified on the \
+               zkp primitives). assembled: the same cases blinded by hand - non-last constructors with S = TxOutSecrets / \
+               SurjectionInput, one tape-chosen marked output through new_last_confidential / with_secrets_last given all \
+               other output secrets - under the same oracle. Non-trivial: >=2 marked outputs, >=2 assets, an issuance, a \
+               confidential input, last marked output not last, a huge amount or a new-shape script; distinct by the explicit \
+               transaction's encoding.",
         assumptions: &[
             "secp256k1-zkp (Pedersen commitments, range / surjection proofs, rewind) is the trusted base",
             "input secrets are passed in the order amount verification builds its surjection domain: input, its issuance, its token, next input",
+            "amounts the range proof parameters (minimum value 1, exponent 0) admit: 1..=2^63-1; larger amounts occur on unmarked outputs only",
         ],
         subs: vec![
-            Sub { name: "blind", kind: Kind::Tape { max_len: 2500, quick: 3_000, thorough: 120_000, f: blind_and_check } },
+            Sub { name: "blind", kind: Kind::Tape { max_len: 2500, quick: 2_500, thorough: 100_000, f: blind_and_check } },
             Sub { name: "building_blocks", kind: Kind::Tape { max_len: 2500, quick: 1_500, thorough: 40_000, f: building_blocks } },
+            Sub { name: "assembled", kind: Kind::Tape { max_len: 2500, quick: 800, thorough: 30_000, f: assembled } },
         ],
         known: vec![],
     }
